@@ -29,6 +29,11 @@ type c15Case struct {
 	// ItemMiddleware: a batch item middleware registered on the executor: "" (none) | pass | absorb (an error of the
 	// handler is turned into a successful item) | retry (an error makes it run the item once more)
 	ItemMiddleware string `json:"item_middleware,omitempty"`
+	// MessageMiddleware: a message middleware registered on the executor (Use): "" (none) | copy (hands a copy of the
+	// message to its continuation) | chunk (runs a batch item by item: one continuation call per item, each with a
+	// message of its own holding that item, and merges the answers; requests that must be rejected as a whole pass
+	// through untouched). The items still belong to the one request the server received.
+	MessageMiddleware string `json:"message_middleware,omitempty"`
 }
 
 // c15MW is the middleware in force while c15Check runs (one case at a time per process).
@@ -72,8 +77,43 @@ func (b *barrier) wait() {
 	}
 }
 
-func c15Executor(b *barrier, mw string) *kmipserver.BatchExecutor {
+func c15Executor(b *barrier, mw string, msgMW ...string) *kmipserver.BatchExecutor {
 	exec := kmipserver.NewBatchExecutor()
+	if len(msgMW) > 0 {
+		switch msgMW[0] {
+		case "copy":
+			exec.Use(func(next kmipserver.Next, ctx context.Context, rm *kmip.RequestMessage) (*kmip.ResponseMessage, error) {
+				cp := *rm
+				cp.BatchItem = append([]kmip.RequestBatchItem{}, rm.BatchItem...)
+				return next(ctx, &cp)
+			})
+		case "chunk":
+			exec.Use(func(next kmipserver.Next, ctx context.Context, rm *kmip.RequestMessage) (*kmip.ResponseMessage, error) {
+				if len(rm.BatchItem) < 2 || int(rm.Header.BatchCount) != len(rm.BatchItem) || rm.Header.ProtocolVersion.ProtocolVersionMajor != 1 ||
+					rm.Header.BatchErrorContinuationOption == kmip.BatchErrorContinuationOptionUndo {
+					return next(ctx, rm)
+				}
+				var out *kmip.ResponseMessage
+				for i := range rm.BatchItem {
+					part := *rm
+					part.Header.BatchCount = 1
+					part.BatchItem = rm.BatchItem[i : i+1 : i+1]
+					r, err := next(ctx, &part)
+					if err != nil || r == nil {
+						return r, err
+					}
+					if out == nil {
+						cp := *r
+						cp.BatchItem = nil
+						out = &cp
+					}
+					out.BatchItem = append(out.BatchItem, r.BatchItem...)
+				}
+				out.Header.BatchCount = int32(len(out.BatchItem))
+				return out, nil
+			})
+		}
+	}
 	var calls sync.Map // item identifier -> *int32: invocations of the handler for that item
 	var backend *kmipserver.BatchExecutor
 	var backendOnce sync.Once
@@ -342,7 +382,7 @@ func c15Run(t *testing.T, c c15Case) (sig string, err error) {
 		b = nil
 	}
 	c15MW = c.ItemMiddleware
-	exec := c15Executor(b, c.ItemMiddleware)
+	exec := c15Executor(b, c.ItemMiddleware, c.MessageMiddleware)
 	var mu sync.Mutex
 	var first error
 	record := func(e error) {
@@ -429,7 +469,7 @@ func c15Run(t *testing.T, c c15Case) (sig string, err error) {
 
 func TestC15Placeholder(t *testing.T) {
 	const name = "TestC15Placeholder"
-	rec := evid.New("C15", name, "1..4 connections (through a real Server over an in-memory listener in a synctest bubble) or 2..6 goroutines calling HandleRequest directly, each issuing 0..2 requests that are rejected at message level (unsupported version, batch count mismatch, Undo) followed by 1..4 requests of 1..6 placeholder actions (set / set the empty string / read / read-or-id / read with an explicit identifier / forward a nested request to a back-end executor / clear / fail / set-then-fail / fail on the first run only, each item optionally carrying a non-critical message extension); the executor has no batch item middleware, a pass-through one, one that turns a handler error into a successful item, or one that runs a failed item once more; "+
+	rec := evid.New("C15", name, "1..4 connections (through a real Server over an in-memory listener in a synctest bubble) or 2..6 goroutines calling HandleRequest directly, each issuing 0..2 requests that are rejected at message level (unsupported version, batch count mismatch, Undo) followed by 1..4 requests of 1..6 placeholder actions (set / set the empty string / read / read-or-id / read with an explicit identifier / forward a nested request to a back-end executor / clear / fail / set-then-fail / fail on the first run only, each item optionally carrying a non-critical message extension); the executor has no batch item middleware, a pass-through one, one that turns a handler error into a successful item, or one that runs a failed item once more, and optionally a message middleware that hands on a copy of the message or that runs the batch item by item (one continuation call and one message per item, answers merged); "+
 		"rendezvous items inside the first request of every connection force the requests to overlap in time at chosen items; values are unique per request; oracle: per-request placeholder model (empty at start, set visible to later items, never a foreign value); "+
 		"non-trivial = set followed by read in a request that overlaps another one, or a second request on a connection after a set; distinct by case").Attach(t)
 	if rp := evid.LoadReplay(name); rp != nil {
@@ -444,7 +484,8 @@ func TestC15Placeholder(t *testing.T) {
 	}
 	actions := []string{"set", "set", "read", "read", "readorid", "readexplicit", "nested", "clear", "setempty", "fail", "setfail", "failonce"}
 	rapid.Check(t, func(rt *rapid.T) {
-		c := c15Case{Direct: rapid.Bool().Draw(rt, "direct"), ItemMiddleware: rapid.SampledFrom([]string{"", "", "pass", "absorb", "retry"}).Draw(rt, "item-middleware")}
+		c := c15Case{Direct: rapid.Bool().Draw(rt, "direct"), ItemMiddleware: rapid.SampledFrom([]string{"", "", "pass", "absorb", "retry"}).Draw(rt, "item-middleware"),
+			MessageMiddleware: rapid.SampledFrom([]string{"", "", "copy", "chunk"}).Draw(rt, "message-middleware")}
 		nconn := rapid.IntRange(1, 4).Draw(rt, "connections")
 		if c.Direct {
 			nconn = rapid.IntRange(2, 6).Draw(rt, "goroutines")
@@ -501,7 +542,7 @@ func TestC15Placeholder(t *testing.T) {
 			c.Conns = append(c.Conns, reqs)
 		}
 		key, _ := json.Marshal(c)
-		rec.Case(nt, key, fmt.Sprintf("direct=%v", c.Direct), fmt.Sprintf("syncs=%d", syncs), "item-middleware="+c.ItemMiddleware)
+		rec.Case(nt, key, fmt.Sprintf("direct=%v", c.Direct), fmt.Sprintf("syncs=%d", syncs), "item-middleware="+c.ItemMiddleware, "message-middleware="+c.MessageMiddleware)
 		if nt && rec.WantSample() && len(key) < 1200 {
 			rec.Sample(c)
 		}
